@@ -146,6 +146,14 @@ case("F42 ReindexStrategy(blockwise=True) with an arg reduction", f42, lambda r:
 case("F43 any with a negative fill, finalizer reindex", lambda: groupby_reduce(da.from_array(np.arange(6.) > 2, chunks=2), np.array([1, 1, 2, 2, 5, 5]), func="any", expected_groups=np.array([0, 1, 2, 3]), fill_value=-1, method="map-reduce", reindex=False)[0].compute().tolist(), lambda r: r == [-1, 0, 1, -1])
 case("F43 count with a fractional fill, finalizer reindex", lambda: groupby_reduce(da.from_array(np.arange(6.), chunks=2), np.array([1, 1, 2, 2, 5, 5]), func="count", expected_groups=np.array([0, 1, 2, 3]), fill_value=0.5, method="map-reduce", reindex=False)[0].compute().tolist(), lambda r: r == [0.5, 2.0, 2.0, 0.5])
 
+# F44
+case("F44 nansum of int8 on the automatic engine", lambda: groupby_reduce(np.array([100, 100], dtype=np.int8), np.zeros(2, int), func="nansum")[0].tolist(), lambda r: r == [200])
+case("F44 count of 300 int8 values on the automatic engine", lambda: groupby_reduce(np.ones(300, dtype=np.int8), np.zeros(300, int), func="count")[0].tolist(), lambda r: r == [300])
+# F45
+case("F45 var of int8 [100, -100]", lambda: groupby_reduce(np.array([100, -100], dtype=np.int8), np.zeros(2, int), func="var", engine="numpy")[0].tolist(), lambda r: r == [10000.0])
+# F46
+case("F46 chunked var of int8", lambda: groupby_reduce(da.from_array(np.array([100, -100, 50, 20], dtype=np.int8), chunks=2), np.zeros(4, int), func="var")[0].compute().tolist(), lambda r: r == [5418.75])
+
 bad = 0
 for name, verdict in results:
     print(f"{name:55s} {verdict}")
